@@ -462,6 +462,8 @@ class Gen:
             rec0 = d(st.integers(0, min(sim.numrecs + 1, MAXREC - 1)))
             op["rec0"] = rec0
             op["nrec"] = d(st.integers(1, min(3, MAXREC - rec0)))
+            # how a rank writes its share: one vara, or a varn request with one segment per record, highest record first
+            op["how"] = d(st.sampled_from(["vara", "vara", "varn_desc"]))
         self.emit(op)
         return True
 
@@ -541,15 +543,21 @@ def emit_write(p, sim, op, k):
         r0, nr = op["rec0"], op["nrec"]
         for r in range(k):
             a, b = r0 + (r * nr) // k, r0 + ((r + 1) * nr) // k
-            vals = sum([val_list(vi, op["seed"] + rec, n) for rec in range(a, b)], [])
+            desc = op.get("how") == "varn_desc" and b > a
+            vals = sum([val_list(vi, op["seed"] + rec, n) for rec in (range(b - 1, a - 1, -1) if desc else range(a, b))], [])
             buf = p.newbuf()
             p.s.op("buf", ranks=[r], b=buf, size=max(1, len(vals) * np.dtype(dt).itemsize), hex=np.array(vals, dtype=dt).tobytes() if vals else b"\xee")
             if b > a:
                 start, count = [a] + [0] * len(inner), [b - a] + inner
             else:
                 start, count = [0] * (1 + len(inner)), [0] * (1 + len(inner))
+            if op.get("how") == "varn_desc":
+                recs = list(range(b - 1, a - 1, -1))
+                p.s.op("data", ranks=[r], sn=sn, step=True, api="put", form="varn", coll=1, mt=mt, f="f0", v=vi, buf=buf, num=len(recs),
+                       starts=[[rec] + [0] * len(inner) for rec in recs] if recs else None, counts=[[1] + inner for rec in recs] if recs else None)
+                continue
             p.s.op("data", ranks=[r], sn=sn, step=True, api="put", form="vara", coll=1, mt=mt, f="f0", v=vi, start=start, count=count, buf=buf)
-        p.expect_rc(sn, range(k), 0, "put_vara_all(record variable)")
+        p.expect_rc(sn, range(k), 0, "put_%s_all(record variable)" % ("varn" if op.get("how") == "varn_desc" else "vara"))
         return
     vals = val_list(vi, op["seed"], n)
     w = op["seed"] % k
